@@ -14,7 +14,7 @@ try:
     env = dict(os.environ)
     env.update({"NEOLITH_REPO": scratch, "NLX_CACHE": os.path.join(tmp, "cache"), "VERIF_EVIDENCE_DIR": os.path.join(tmp, "ev"), "VERIF_TIER": "quick",
                 "NLX_BIN": os.path.join(VERIF, ".cache", "bin", "nlx")})
-    r = subprocess.run([sys.executable, os.path.join(VERIF, "check"), pid] + sys.argv[3:], env=env)
+    r = subprocess.run([sys.executable, os.environ["TRY_SCRIPT"]], env=env) if os.environ.get("TRY_SCRIPT") else subprocess.run([sys.executable, os.path.join(VERIF, "check"), pid] + sys.argv[3:], env=env)
     sys.exit(r.returncode)
 finally:
     shutil.rmtree(tmp, ignore_errors=True)
